@@ -73,6 +73,7 @@ class Walk:
         self.cwd = cwd
         self.errors = []
         self.optional = set()  # paths that may or may not be reported
+        self.deny = set()      # directories whose listing fails (fault injection; the oracle runs as root)
         self.out_of_domain = False
 
     def _abs(self, p):
@@ -139,6 +140,8 @@ class Walk:
             pruned = bool(self._on_visit(ent))
         if may_descend and not pruned:
             try:
+                if path in self.deny:
+                    raise PermissionError(13, "denied", path)
                 names = os.listdir(ap)
             except OSError as e:
                 self.errors.append(("unreadable", path, False))
